@@ -1,7 +1,9 @@
 package main
 
 import (
+	"sort"
 	"fmt"
+	"go/token"
 	"go/types"
 	"strings"
 
@@ -241,5 +243,512 @@ func (E *Engine) stableObligations(p string, enc *FnEnc) {
 		}
 		enc.obls = append(enc.obls, &Obl{Name: fmt.Sprintf("%s#frame.stable[%s]", sf.Pkg, what), Kind: "frame.stable", Func: "lemmas",
 			Props: sf.Props, PC: "true", Cond: cond, Pos: fmt.Sprintf("%s:%d", strings.TrimPrefix(sf.File, repoDir+"/"), sf.Line), Text: text, enc: enc, Trivial: cond == "true"})
+	}
+}
+
+// ---------------------------------------------------------------------------
+// Confinement of slices that belong to stable (immutable) structures.
+//
+// Fields of a stable type are never reassigned, but a slice stored in such a field also
+// names a backing array.  The array stays unchanged if every use of a slice value loaded
+// from such a field is a read: len/cap, range, indexing followed by loads, reslicing,
+// being the source of copy/append, or being passed to a parameter that is itself only
+// read (computed as a greatest fixed point over all functions).  Anything else – storing
+// the slice somewhere, boxing it, returning it, passing it to unknown code, writing an
+// element – is reported.
+// ---------------------------------------------------------------------------
+
+type roParam struct {
+	fn  *ssa.Function
+	idx int
+}
+
+func (E *Engine) readOnlySliceParams() map[roParam]bool {
+	if E.roParams != nil {
+		return E.roParams
+	}
+	ro := map[roParam]bool{}
+	var fns []*ssa.Function
+	for _, k := range E.L.sortedFuncKeys() {
+		fn := E.L.Funcs[k]
+		fns = append(fns, fn)
+		for i, p := range fn.Params {
+			if _, ok := p.Type().Underlying().(*types.Slice); ok {
+				ro[roParam{fn, i}] = true
+			}
+		}
+	}
+	for changed := true; changed; {
+		changed = false
+		for _, fn := range fns {
+			for i, p := range fn.Params {
+				key := roParam{fn, i}
+				if !ro[key] {
+					continue
+				}
+				if why := E.sliceUseViolation(p, ro, map[ssa.Value]bool{}); why != "" {
+					ro[key] = false
+					changed = true
+				}
+			}
+		}
+	}
+	E.roParams = ro
+	return ro
+}
+
+// sliceUseViolation returns "" if every use of slice value v is a read, else a description.
+func (E *Engine) sliceUseViolation(v ssa.Value, ro map[roParam]bool, seen map[ssa.Value]bool) string {
+	if seen[v] {
+		return ""
+	}
+	seen[v] = true
+	refs := v.Referrers()
+	if refs == nil {
+		return ""
+	}
+	for _, r := range *refs {
+		switch x := r.(type) {
+		case *ssa.DebugRef, *ssa.Range:
+		case *ssa.BinOp:
+		case *ssa.Slice:
+			if x.X == v {
+				if w := E.sliceUseViolation(x, ro, seen); w != "" {
+					return w
+				}
+			}
+		case *ssa.Phi, *ssa.ChangeType, *ssa.Convert:
+			if w := E.sliceUseViolation(x.(ssa.Value), ro, seen); w != "" {
+				return w
+			}
+		case *ssa.IndexAddr:
+			if x.X != v {
+				continue
+			}
+			if w := addrOnlyRead(x, 0); w != "" {
+				return w
+			}
+		case *ssa.Call:
+			if w := E.sliceArgViolation(&x.Call, v, ro); w != "" {
+				return w
+			}
+		case *ssa.Defer:
+			if w := E.sliceArgViolation(&x.Call, v, ro); w != "" {
+				return w
+			}
+		case *ssa.Go:
+			return "passed to a goroutine"
+		case *ssa.Store:
+			if x.Val == v {
+				// a local variable (possibly captured by a local closure): follow its loads
+				if a, ok := x.Addr.(*ssa.Alloc); ok {
+					if w := E.cellUseViolation(a, ro, seen); w != "" {
+						return w
+					}
+					continue
+				}
+				return "stored into memory at " + E.L.Prog.Fset.Position(x.Pos()).String()
+			}
+		case *ssa.MakeInterface:
+			return "boxed into an interface"
+		case *ssa.MapUpdate:
+			return "stored into a map"
+		case *ssa.Return:
+			return "returned to the caller at " + E.L.Prog.Fset.Position(x.Pos()).String()
+		case *ssa.MakeClosure:
+			return "captured by a closure"
+		default:
+			return fmt.Sprintf("used by %T", r)
+		}
+	}
+	return ""
+}
+
+func addrOnlyRead(a ssa.Value, depth int) string {
+	refs := a.Referrers()
+	if refs == nil || depth > 4 {
+		return "address escapes"
+	}
+	for _, r := range *refs {
+		switch x := r.(type) {
+		case *ssa.DebugRef:
+		case *ssa.UnOp:
+			if x.Op != token.MUL {
+				return "address used by unary op"
+			}
+		case *ssa.FieldAddr:
+			if w := addrOnlyRead(x, depth+1); w != "" {
+				return w
+			}
+		case *ssa.Store:
+			if x.Addr == a {
+				return "element written"
+			}
+			return "element address stored"
+		default:
+			return fmt.Sprintf("element address used by %T", r)
+		}
+	}
+	return ""
+}
+
+func (E *Engine) sliceArgViolation(c *ssa.CallCommon, v ssa.Value, ro map[roParam]bool) string {
+	if b, ok := c.Value.(*ssa.Builtin); ok {
+		switch b.Name() {
+		case "len", "cap":
+			return ""
+		case "copy":
+			if len(c.Args) == 2 && c.Args[1] == v && c.Args[0] != v {
+				return ""
+			}
+			return "destination of copy"
+		case "append":
+			if len(c.Args) == 2 && c.Args[1] == v && c.Args[0] != v {
+				return ""
+			}
+			return "first argument of append (may be written in place)"
+		}
+		return "passed to builtin " + b.Name()
+	}
+	callee := c.StaticCallee()
+	if callee == nil {
+		return "passed to a dynamic call"
+	}
+	if callee.Pkg == nil || E.L.SSA[callee.Pkg.Pkg.Name()] != callee.Pkg {
+		if libReadsOnly(callee) || libNoCallback(callee) {
+			return ""
+		}
+		return "passed to library function " + callee.String()
+	}
+	args := c.Args
+	for i, a := range args {
+		if a != v {
+			continue
+		}
+		if i >= len(callee.Params) || !ro[roParam{callee, i}] {
+			return "passed to " + funcKey(callee) + " which does not only read it"
+		}
+	}
+	return ""
+}
+
+// confinementObligations: for each stabletypes declaration, slices loaded from fields of
+// those types are only read (outside the exempt files).
+func (E *Engine) confinementObligations(p string, enc *FnEnc) {
+	ro := E.readOnlySliceParams()
+	keysOf := map[*StableField]map[string]bool{}
+	for key, sf := range E.stableKeys() {
+		if keysOf[sf] == nil {
+			keysOf[sf] = map[string]bool{}
+		}
+		keysOf[sf][key] = true
+	}
+	for _, sf := range E.CS.StableFields {
+		if sf.TypePrefix == "" || !hasProp(sf.Props, p) {
+			continue
+		}
+		keys := keysOf[sf]
+		var bad []string
+		count := 0
+		for _, fk := range E.L.sortedFuncKeys() {
+			fn := E.L.Funcs[fk]
+			for _, b := range fn.Blocks {
+				for _, in := range b.Instrs {
+					ld, ok := in.(*ssa.UnOp)
+					if !ok || ld.Op != token.MUL {
+						continue
+					}
+					if _, isSlice := ld.Type().Underlying().(*types.Slice); !isSlice {
+						continue
+					}
+					fa, ok := ld.X.(*ssa.FieldAddr)
+					if !ok {
+						continue
+					}
+					owner := fa.X.Type().Underlying().(*types.Pointer).Elem()
+					if !keys[fieldKeyOf(owner, fa.Field)] {
+						continue
+					}
+					pos := E.L.Prog.Fset.Position(ld.Pos())
+					exempt := false
+					for _, f := range sf.Files {
+						if strings.HasSuffix(pos.Filename, "/"+f) {
+							exempt = true
+						}
+					}
+					if exempt {
+						continue
+					}
+					count++
+					if why := E.sliceUseViolation(ld, ro, map[ssa.Value]bool{}); why != "" {
+						bad = append(bad, fmt.Sprintf("%s (%s:%d): %s", fk, strings.TrimPrefix(pos.Filename, repoDir+"/"), pos.Line, why))
+					}
+				}
+			}
+		}
+		cond := "true"
+		text := fmt.Sprintf("slices stored in %s* structures are only read (%d load sites checked)", sf.TypePrefix, count)
+		if len(bad) > 0 {
+			cond = "false"
+			text += " -- violated: " + strings.Join(bad, "; ")
+		}
+		enc.obls = append(enc.obls, &Obl{Name: fmt.Sprintf("%s#frame.confined[%s* slices]", sf.Pkg, sf.TypePrefix), Kind: "frame.confined", Func: "lemmas",
+			Props: sf.Props, PC: "true", Cond: cond, Pos: fmt.Sprintf("%s:%d", strings.TrimPrefix(sf.File, repoDir+"/"), sf.Line), Text: text, enc: enc, Trivial: cond == "true"})
+	}
+}
+
+// cellUseViolation: the slice was stored into local variable cell; check every load of the
+// cell, also inside closures that capture it.
+func (E *Engine) cellUseViolation(cell ssa.Value, ro map[roParam]bool, seen map[ssa.Value]bool) string {
+	if seen[cell] {
+		return ""
+	}
+	seen[cell] = true
+	refs := cell.Referrers()
+	if refs == nil {
+		return "variable escapes"
+	}
+	for _, r := range *refs {
+		switch x := r.(type) {
+		case *ssa.DebugRef, *ssa.Store:
+		case *ssa.UnOp:
+			if x.Op == token.MUL {
+				if w := E.sliceUseViolation(x, ro, seen); w != "" {
+					return w
+				}
+			}
+		case *ssa.MakeClosure:
+			fn := x.Fn.(*ssa.Function)
+			for i, b := range x.Bindings {
+				if b == cell && i < len(fn.FreeVars) {
+					if w := E.cellUseViolation(fn.FreeVars[i], ro, seen); w != "" {
+						return w
+					}
+				}
+			}
+		default:
+			return fmt.Sprintf("variable used by %T", r)
+		}
+	}
+	return ""
+}
+
+// rootGlobal follows an address or value back to the package-level variable it was
+// derived from (through loads, field/element addresses, lookups), if any.
+func rootGlobal(v ssa.Value, depth int) *ssa.Global {
+	if depth > 8 {
+		return nil
+	}
+	switch x := v.(type) {
+	case *ssa.Global:
+		return x
+	case *ssa.FieldAddr:
+		return rootGlobal(x.X, depth+1)
+	case *ssa.IndexAddr:
+		return rootGlobal(x.X, depth+1)
+	case *ssa.UnOp:
+		if x.Op == token.MUL {
+			return rootGlobal(x.X, depth+1)
+		}
+	case *ssa.Lookup:
+		return rootGlobal(x.X, depth+1)
+	case *ssa.Index:
+		return rootGlobal(x.X, depth+1)
+	case *ssa.Field:
+		return rootGlobal(x.X, depth+1)
+	case *ssa.Slice:
+		return rootGlobal(x.X, depth+1)
+	}
+	return nil
+}
+
+// globalsObligations: no function other than the package initialisers stores to a
+// package-level variable of the package, or into memory reached through one (elements of
+// package-level tables, fields of package-level structs, entries of package-level maps).
+func (E *Engine) globalsObligations(p string, enc *FnEnc) {
+	for _, gr := range E.CS.GlobalsRO {
+		if !hasProp(gr.Props, p) {
+			continue
+		}
+		sp := E.L.SSA[gr.Pkg]
+		if sp == nil {
+			continue
+		}
+		except := map[string]bool{}
+		for _, x := range gr.Except {
+			except[x] = true
+		}
+		var bad []string
+		nglob := 0
+		for _, m := range sp.Members {
+			if _, ok := m.(*ssa.Global); ok {
+				nglob++
+			}
+		}
+		for _, fk := range E.L.sortedFuncKeys() {
+			fn := E.L.Funcs[fk]
+			isInit := fn.Signature.Recv() == nil && fn.Parent() == nil && (fn.Name() == "init" || strings.HasPrefix(fn.Name(), "init#"))
+			if isInit {
+				continue
+			}
+			for _, b := range fn.Blocks {
+				for _, in := range b.Instrs {
+					var g *ssa.Global
+					what := ""
+					switch x := in.(type) {
+					case *ssa.Store:
+						g = rootGlobal(x.Addr, 0)
+						what = "store"
+					case *ssa.MapUpdate:
+						g = rootGlobal(x.Map, 0)
+						what = "map update"
+					case *ssa.Call:
+						if bi, ok := x.Call.Value.(*ssa.Builtin); ok && (bi.Name() == "delete" || bi.Name() == "copy") {
+							g = rootGlobal(x.Call.Args[0], 0)
+							what = bi.Name()
+						}
+					}
+					if g == nil || g.Pkg != sp || except[g.Name()] {
+						continue
+					}
+					pos := E.L.Prog.Fset.Position(in.Pos())
+					bad = append(bad, fmt.Sprintf("%s: %s through %s (%s:%d)", fk, what, g.Name(), strings.TrimPrefix(pos.Filename, repoDir+"/"), pos.Line))
+				}
+			}
+		}
+		cond := "true"
+		text := fmt.Sprintf("the %d package-level variables of package %s are written only by its initialisers (exceptions: %s)", nglob, gr.Pkg, strings.Join(gr.Except, ", "))
+		if len(bad) > 0 {
+			cond = "false"
+			text += " -- violated: " + strings.Join(bad, "; ")
+		}
+		enc.obls = append(enc.obls, &Obl{Name: fmt.Sprintf("%s#frame.globals-readonly", gr.Pkg), Kind: "frame.globals", Func: "lemmas",
+			Props: gr.Props, PC: "true", Cond: cond, Pos: fmt.Sprintf("%s:%d", strings.TrimPrefix(gr.File, repoDir+"/"), gr.Line), Text: text, enc: enc, Trivial: cond == "true"})
+	}
+}
+
+// slotObligations: a slot contract is an inductive hypothesis about every function that a
+// dynamic call through that field / interface method can reach.  It is closed here: every
+// function stored into the field anywhere in the package (or, for an unexported interface
+// method, the method of every type of the package implementing the interface) carries
+// "implements <slot>", i.e. is itself proved against the slot's clauses.
+func (E *Engine) slotObligations(p string, enc *FnEnc) {
+	var keys []string
+	for k := range E.CS.Slots {
+		keys = append(keys, k)
+	}
+	sort.Strings(keys)
+	for _, key := range keys {
+		slot := E.CS.Slots[key]
+		if !hasProp(slot.Props, p) {
+			continue
+		}
+		parts := strings.Split(key, ".")
+		sp := E.L.SSA[parts[0]]
+		if sp == nil || len(parts) != 3 {
+			continue
+		}
+		tn, _ := sp.Pkg.Scope().Lookup(parts[1]).(*types.TypeName)
+		if tn == nil {
+			cfail("slot %s: no such type", key)
+		}
+		var bad []string
+		n := 0
+		okFn := func(fn *ssa.Function) bool {
+			fc := E.CS.Funcs[funcKey(fn)]
+			return fc != nil && fc.Implements == key && !fc.Trusted
+		}
+		switch u := tn.Type().Underlying().(type) {
+		case *types.Struct:
+			idx := -1
+			for i := 0; i < u.NumFields(); i++ {
+				if u.Field(i).Name() == parts[2] {
+					idx = i
+				}
+			}
+			if idx < 0 {
+				cfail("slot %s: no such field", key)
+			}
+			for _, fn := range E.L.Funcs {
+				if fn.Pkg != sp {
+					continue
+				}
+				for _, b := range fn.Blocks {
+					for _, in := range b.Instrs {
+						st, ok := in.(*ssa.Store)
+						if !ok {
+							continue
+						}
+						fa, ok := st.Addr.(*ssa.FieldAddr)
+						if !ok || fa.Field != idx {
+							continue
+						}
+						pt, ok := fa.X.Type().Underlying().(*types.Pointer)
+						if !ok || !types.Identical(pt.Elem(), tn.Type()) {
+							continue
+						}
+						n++
+						v := st.Val
+						if ct, ok := v.(*ssa.ChangeType); ok {
+							v = ct.X
+						}
+						switch x := v.(type) {
+						case *ssa.Function:
+							if !okFn(x) {
+								bad = append(bad, funcKey(x))
+							}
+						case *ssa.Const:
+							// nil: calling it panics, nothing to prove
+						default:
+							bad = append(bad, fmt.Sprintf("%s in %s", v.String(), funcKey(fn)))
+						}
+					}
+				}
+			}
+			// whole-struct stores copy the field from another struct of the same type: fine
+		case *types.Interface:
+			m, _, _ := types.LookupFieldOrMethod(tn.Type(), false, sp.Pkg, parts[2])
+			if m == nil {
+				cfail("slot %s: no such method", key)
+			}
+			if m.(*types.Func).Exported() {
+				bad = append(bad, "method is exported: implementations outside the package are possible")
+			}
+			for _, name := range sp.Pkg.Scope().Names() {
+				on, ok := sp.Pkg.Scope().Lookup(name).(*types.TypeName)
+				if !ok || types.IsInterface(on.Type()) {
+					continue
+				}
+				for _, T := range []types.Type{on.Type(), types.NewPointer(on.Type())} {
+					if !types.Implements(T, u) {
+						continue
+					}
+					sel := E.L.Prog.MethodSets.MethodSet(T).Lookup(sp.Pkg, parts[2])
+					if sel == nil {
+						continue
+					}
+					fn := E.L.Prog.MethodValue(sel)
+					if fn == nil {
+						continue
+					}
+					if fn.Synthetic != "" {
+						continue // wrapper of a value-receiver method, counted at the value type
+					}
+					n++
+					if !okFn(fn) {
+						bad = append(bad, funcKey(fn))
+					}
+				}
+			}
+		}
+		cond := "true"
+		text := fmt.Sprintf("every function reachable through %s (%d found) is proved against the slot contract", key, n)
+		if len(bad) > 0 || n == 0 {
+			cond = "false"
+			text += " -- not so: " + strings.Join(bad, ", ")
+		}
+		o := &Obl{Name: fmt.Sprintf("%s#slotimpl[%s.%s]", parts[0], parts[1], parts[2]), Kind: "slotimpl", Func: "lemmas", Props: slot.Props,
+			PC: "true", Cond: cond, NDecls: 0, Pos: fmt.Sprintf("%s:%d", strings.TrimPrefix(slot.File, repoDir+"/"), slot.Line), Text: text, enc: enc, Trivial: cond == "true"}
+		enc.obls = append(enc.obls, o)
 	}
 }
